@@ -388,6 +388,9 @@ def check_accounting(ck, cm: CacheModel):
                         app_all = [s2 for s2 in fa.stmts(ast.Expr) if isinstance(s2.value, ast.Call)
                                    and A.call_attr(s2.value) == "append" and self_attr(A.call_recv(s2.value), cm.queue)
                                    and s2.value.args and _xn(fa, s2.value.args[0], s2) == kx]
+                        # the mark-used helper (R3 mark-used-shape: removes the key, then appends it at the right end on every path) queues the key as well
+                        app_all += [s2 for s2 in fa.stmts(ast.Expr) if isinstance(s2.value, ast.Call) and cm.is_self_call(s2.value, cm.mark_used)
+                                    and s2.value.args and _xn(fa, s2.value.args[0], s2) == kx and s2 not in app_all]
                         app = [s2 for s2 in app_all if s2 in blk]
                         okq = len(app) == 1 or (not app and not _in_loop(fa, st) and bool(app_all) and every_path_through(fa, ins_nodes, fa.nodes_all(app_all))
                                                 and at_most_once(fa, fa.nodes_all(app_all)))
@@ -606,8 +609,20 @@ class BudgetTests:
                  ast.GtE: {True: None, False: "fits"}, ast.Lt: {True: "fits", False: None},
                  ast.Eq: {True: "fits", False: None}, ast.NotEq: {True: None, False: "fits"}}[op]
         if kind == "counter-only":
+            if self._size_booked_before(nid):
+                # the size of this insertion is on the counter already on every way here: the counter IS counter + size
+                return "room", table
             table = {True: None, False: None}
         return kind, table
+
+    def _size_booked_before(self, nid) -> bool:
+        """every path from the entry to CFG node `nid` has added the size of this insertion to the usage counter (a put that books
+        first and makes room afterwards)"""
+        fa, cm = self.fa, self.cm
+        books = [st for st in fa.stmts(ast.AugAssign) if isinstance(st.op, ast.Add) and self_attr(st.target, cm.counter)
+                 and any(A.norm(st.value) in self.forms or self._is_size(st.value, i) for i in fa.nodes(st))]
+        bn = fa.nodes_all(books)
+        return bool(bn) and nid not in bn and fa.cfg.must_pass(bn, nid)
 
     def _is_queue_len(self, e, nid):
         v, dn = self._through_local(e, nid)
@@ -2267,6 +2282,7 @@ def check_insertion_atomic(ck, cm: CacheModel, R="C06.R7"):
         books = [st for st in fa.stmts(ast.AugAssign) if isinstance(st.op, ast.Add) and self_attr(st.target, cm.counter)]
         queued = [fa.stmt_of(c) for c in fa.calls() if A.call_attr(c) in ("append", "appendleft") and self_attr(A.call_recv(c), cm.queue)
                   and c.args and _xn(fa, c.args[0], c) in keys]
+        queued += [fa.stmt_of(c) for c in fa.calls() if cm.is_self_call(c, cm.mark_used) and c.args and _xn(fa, c.args[0], c) in keys]
         undo = [fa.stmt_of(c) for c in fa.calls(cm.evict.name) if cm.is_self_call(c, cm.evict) and c.args and _xn(fa, c.args[0], c) in keys]
         parts = [("the entry is stored in the resident map", stores), ("its size is booked on %s" % cm.counter, books),
                  ("its key is put on the recency queue", queued)]
